@@ -86,7 +86,9 @@ def run(chk):
     only = os.environ.get("VERIF_ONLY")
     if not only or "p1" in only:
         p1_primitives(chk)
-    if only == "p1":
+    if not only or "p3" in only:
+        p3_remove_broken_children(chk)
+    if only in ("p1", "p3"):
         return
     p2_frame(chk)
     bounded(chk)
@@ -508,6 +510,41 @@ def p1_primitives(chk):
         oblige_wf(I, S, root, "wf_preserved", old, (0, 1, -1), (tp, mp, me))
     chk.prove("advtree.AdvancedNode.move_to", h_move, ex, targets=[fn], replay=replay_primitives)
 
+    # ---- copy: detaches before deepcopy (the copy is self-contained) and restores the link on EVERY exit
+    ex = Explorer()
+    install_tree(ex)
+    ex.inline.add(f"{ADV}:AdvancedNode.copy")
+    fn = ex.function(ADV, "AdvancedNode.copy")
+
+    def m_deepcopy(I, x, *a):
+        S = ts(I)
+        # call-site precondition (the property: "copy() detaches before deepcopy so copies are self-contained")
+        I.oblige("deepcopy_runs_on_the_detached_node", z3.Select(S["parent"], x.z) == 0)
+        # exceptional postcondition of the library call: deepcopy recurses ~6 frames per tree level and raises
+        # RecursionError on deep documents (and MemoryError), leaving its argument untouched
+        if I.decide(I.fresh("deepcopy_fails", Bo)):
+            I.throw("RecursionError", "maximum recursion depth exceeded")
+        c = I.fresh("copy@node", Z)
+        I.assume(c != 0)
+        I.assume(z3.Not(z3.Select(S["live"], c)))
+        I.assume(z3.Select(S["parent"], c) == 0)
+        return SRef("node", c)
+    ex.models["copy.deepcopy"] = Model("copy.deepcopy", m_deepcopy)
+
+    def h_copy(I):
+        S, root = setup(I, ex)
+        me = node(I, S, "self")
+        old = S.copy()
+        out = ex.run_function(I, fn, [SRef("node", me)])
+        I.oblige("raises_only_what_deepcopy_raised", z3.Or(out.returned, out.raised("RecursionError")))
+        I.oblige("parent_link_restored_on_every_exit", z3.Select(S["parent"], me) == z3.Select(old["parent"], me))
+        I.oblige("child_lists_untouched", z3.And(S["len"] == old["len"], S["elem"] == old["elem"]))
+        I.oblige("other_parent_links_untouched", Forall(["node"], lambda y: z3.Implies(y != me, z3.Select(S["parent"], y) == z3.Select(old["parent"], y))))
+        if out.returned:
+            c = out.value
+            I.oblige("the_copy_is_a_detached_new_node", z3.And(c.z != me, z3.Select(S["parent"], c.z) == 0))
+    chk.prove("advtree.AdvancedNode.copy", h_copy, ex, targets=[fn], replay=replay_copy)
+
 
 # ----------------------------------------------------------------------------- replay / bounded for P1: small real trees
 def _mk_tree(shape):
@@ -622,4 +659,185 @@ def replay_primitives(model, obligation):
     n, bad = primitives_search()
     if bad:
         return True, bad, bad["primitive"]
+    return False, {"cases": n}, None
+
+
+def replay_copy(model, obligation):
+    """real AdvancedNode.copy() with copy.deepcopy failing: the node must still be attached afterwards"""
+    import copy as _copy
+    from mwlib.parser import advtree as AT
+    t = _mk_tree([None, 0, 1])
+    real = _copy.deepcopy
+    seen = {}
+
+    def failing(x, *a, **k):
+        seen["parent_during_deepcopy"] = x.parent
+        raise RecursionError("maximum recursion depth exceeded")
+    AT.copy.deepcopy = failing
+    try:
+        try:
+            t[1].copy()
+        except RecursionError:
+            pass
+    finally:
+        AT.copy.deepcopy = real
+    if t[1].parent is not t[0]:
+        return True, {"tree": "root > a > b", "call": "a.copy() with deepcopy raising RecursionError", "a.parent afterwards": repr(t[1].parent)}, "copy"
+    if seen.get("parent_during_deepcopy") is not None:
+        return True, {"call": "a.copy()", "problem": "deepcopy ran on an attached node"}, "copy"
+    c = t[1].copy()
+    if c.parent is not None or c is t[1] or t[1].parent is not t[0]:
+        return True, {"call": "a.copy()", "problem": "copy attached / not restored"}, "copy"
+    return False, {"cases": 2}, None
+
+
+# ----------------------------------------------------------------------------- P3: remove_broken_children never dissolves a container
+TC = "mwlib/parser/treecleaner.py"
+CONTAINERS = ("Table", "Row", "ItemList")       # their children (rows / cells / items) may only occur inside them
+
+
+def _real_tables():
+    """the pass's class tables, read from a real TreeCleaner instance (class names)"""
+    from mwlib.parser import advtree as AT
+    from mwlib.parser.treecleaner import TreeCleaner
+    tc = TreeCleaner(AT.Article())
+    rn = {k.__name__: [c.__name__ for c in v] for k, v in tc.remove_nodes.items()}
+    ra = {k.__name__: [c.__name__ for c in v] for k, v in tc.remove_nodes_all_children.items()}
+    return rn, ra
+
+
+def p3_remove_broken_children(chk):
+    rn, ra = _real_tables()
+    names = sorted(set(rn) | set(ra) | {c for v in rn.values() for c in v} | {c for v in ra.values() for c in v} | set(CONTAINERS) | {"Other"})
+    cid = {n: i + 1 for i, n in enumerate(names)}
+    typing = Typing({"cls": ("node",), "anc": ("index",), "nch": ("node",)}, {"anc": "node"})
+    ex = Explorer()
+    ex.typing = typing
+    mod = source.module(TC)
+    tcls = ClassRef(mod.defs["TreeCleaner"], mod)
+    fn = ex.function(TC, "TreeCleaner.remove_broken_children")
+    ex.inline.add(f"{TC}:TreeCleaner.report")
+    ex.contracts[fn.ident] = lambda I, self, child: None       # the recursive call on a child (one step is verified)
+
+    class Anc(PObj):
+        def __init__(self, I):
+            super().__init__("ancestors", {})
+
+        def iter_state(self, I):
+            g = I.ghost
+            return {"len": lambda: g["anc_len"], "get": lambda i: SRef("node", z3.Select(g["anc"], i)), "i": z3.IntVal(0)}
+
+    class Kids(PObj):
+        def __init__(self):
+            super().__init__("kids", {})
+
+        def iter_state(self, I):
+            g = I.ghost
+            return {"len": lambda: g["n_children"], "get": lambda i: SRef("node", z3.Select(g["kid"], i)), "i": z3.IntVal(0)}
+    ex.truthy_hooks["kids"] = lambda I, k: I.decide(I.ghost["n_children"] > 0)
+    ex.len_hooks["kids"] = lambda I, k: SInt(I.ghost["n_children"])
+
+    def m_replace(I, parent, node, newchildren=None):
+        g = I.ghost
+        g["events"].append(("replace", parent, node, newchildren))
+        kept = newchildren is not None and isinstance(newchildren, Kids)
+        if kept:
+            # derived from the property (rows / cells / items only inside their containers): a container
+            # that still has children is never replaced by them
+            I.oblige("a_container_is_never_dissolved_into_its_parent", z3.BoolVal(g["K"] not in CONTAINERS))
+
+    def m_remove(I, parent, node):
+        I.ghost["events"].append(("remove", parent, node, None))
+
+    def heap_getattr(I, ref, name):
+        g = I.ghost
+        me = g["node"]
+        is_me = z3.is_true(z3.simplify(ref.z == me))
+        if name == "__class__":
+            return cid[g["K"]] if is_me else SInt(z3.Select(g["cls"], ref.z))
+        if is_me and name == "parents":
+            return Anc(I)
+        if is_me and name == "children":
+            return Kids()
+        if is_me and name == "parent":
+            return SRef("node", g["parent"])
+        if name == "replace_child":
+            return BoundMethod(ref, Model("AdvancedNode.replace_child[contract]", m_replace))
+        if name == "remove_child":
+            return BoundMethod(ref, Model("AdvancedNode.remove_child[contract]", m_remove))
+        raise Undecided(f"node.{name}")
+    ex.heap_getattr = heap_getattr
+    ex.loopspecs[(fn.ident, 0)] = LoopSpec(invariant=lambda I, v, it: [], variant=None)
+
+    def harness(I):
+        g = I.ghost
+        k = I.choose(len(names), "node_class")
+        g["K"] = names[k]
+        g["node"] = I.fresh("node@node", Z)
+        g["cls"] = I.fresh("cls", A(Z, Z))
+        g["anc"] = I.fresh("anc", A(Z, Z))
+        g["kid"] = I.fresh("kid", A(Z, Z))
+        g["anc_len"] = I.fresh("anc_len", Z)
+        g["n_children"] = I.fresh("n_children", Z)
+        g["events"] = []
+        I.inputs.update({"anc_len": g["anc_len"], "n_children": g["n_children"]})
+        I.assume(g["node"] != 0)
+        I.assume(g["anc_len"] >= 1)          # the pass walks down from the root: every visited node below it has a parent
+        I.assume(g["n_children"] >= 0)
+        # get_parents(): root first, the direct parent last
+        g["parent"] = z3.Select(g["anc"], g["anc_len"] - 1)
+        I.hint("index", g["anc_len"] - 1)
+        I.assume(g["parent"] != 0)
+        me = PObj(tcls, {"remove_nodes": {cid[a]: [cid[c] for c in v] for a, v in rn.items()},
+                         "remove_nodes_all_children": {cid[a]: [cid[c] for c in v] for a, v in ra.items()},
+                         "save_reports": False})
+        out = ex.run_function(I, fn, [me, SRef("node", g["node"])])
+        I.oblige("no_raise", out.returned)
+        ev = g["events"]
+        I.oblige("at_most_one_structural_change", len(ev) <= 1)
+        K = g["K"]
+        forbidden = [cid[c] for c in rn.get(K, [])]
+        if not forbidden:
+            I.oblige("untouched_unless_listed", len(ev) == 0)
+        cls, anc, ln = g["cls"], g["anc"], g["anc_len"]
+        if ev:
+            qi = z3.Int("qi")
+            I.oblige("changed_only_below_a_forbidden_ancestor",
+                     z3.Exists([qi], z3.And(qi >= 0, qi < ln, z3.Or(*[z3.Select(cls, z3.Select(anc, qi)) == c for c in forbidden]))))
+            I.oblige("the_change_detaches_the_node_from_its_parent", z3.And(ev[0][1].z == g["parent"], ev[0][2].z == g["node"]))
+        else:
+            I.oblige("kept_only_without_a_forbidden_ancestor",
+                     Forall(["index"], lambda i: z3.Implies(z3.And(i >= 0, i < ln), z3.And(*[z3.Select(cls, z3.Select(anc, i)) != c for c in forbidden]) if forbidden else z3.BoolVal(True))))
+    chk.prove("treecleaner.TreeCleaner.remove_broken_children", harness, ex, targets=[fn], replay=replay_rbc)
+
+
+def replay_rbc(model, obligation):
+    """real pass on real trees: every ancestor-class chain of length <= 3 above a table with one row"""
+    import itertools
+    from mwlib.parser import advtree as AT
+    from mwlib.parser.treecleaner import TreeCleaner
+    rn, ra = _real_tables()
+    pool = sorted({c for v in rn.values() for c in v} | {"Center", "Div", "Cell"})
+    n = 0
+    for depth in (1, 2, 3):
+        for chain in itertools.product(pool, repeat=depth):
+            root = AT.Article()
+            cur = root
+            for c in chain:
+                x = getattr(AT, c)()
+                cur.append_child(x)
+                cur = x
+            t, r, ce, tx = AT.Table(), AT.Row(), AT.Cell(), AT.Text("x")
+            cur.append_child(t); t.append_child(r); r.append_child(ce); ce.append_child(tx)
+            n += 1
+            try:
+                TreeCleaner(root).remove_broken_children(root)
+            except Exception as e:  # noqa: BLE001
+                return True, {"ancestors": list(chain), "problem": f"raised {type(e).__name__}: {e}"}, "rbc"
+            for x in root.allchildren():
+                if isinstance(x, AT.Row) and not isinstance(x.parent, AT.Table):
+                    return True, {"ancestors": list(chain) + ["Table"], "problem": f"row ends up below {type(x.parent).__name__}"}, "rbc"
+                bad = _wf(root)
+                if bad:
+                    return True, {"ancestors": list(chain) + ["Table"], "problem": bad}, "rbc"
     return False, {"cases": n}, None
